@@ -69,7 +69,8 @@ def emit_item(t):
             args.append(f"{ln}: {e}" if named else e)
             ctor = f"{init} {{ {', '.join(args)} }}" if named else f"{init}({', '.join(args)})"
             dflt = f"D::Def(_) => <Self as DynDefault>::dyn_default(bytes)," if t.has_default else ""
-            o.append(f"impl Editable for {t.name} {{}}")
+            sets = " ".join(f"{i} => {{ self.{fname(i, n)} = from_raw::<{ft.rs()}>(img_); }}" for i, (n, ft) in enumerate(sized_fs))
+            o.append(f"impl Editable for {t.name} {{ fn edit(&mut self, op: &Op) -> String {{ match op {{ Op::SetField(_, fi_, img_) => {{ match fi_ {{ {sets} _ => panic!(\"harness: no such sized field\") }} \"ok\".into() }} Op::Assign(d) => match self.assign_in_place(de::<Self>(d)) {{ Ok(_) => \"ok\".into(), Err(e) => format!(\"err:{{}}\", err_str(&e)) }}, _ => panic!(\"harness: operation not applicable to this type\") }} }} }}")
             hooks = "default_hooks!();" if t.has_default else ""
             o.append(f"impl DynTarget for {t.name} {{ {hooks} unsafe fn dyn_emplace<'a>(d: &D, bytes: &'a mut [u8]) -> Result<&'a mut Self, Error> {{ match d {{ D::Struct(f, l) => {{ let _ = f; {ctor}.emplace_unchecked(bytes) }} {dflt} _ => panic!(\"harness: bad initialiser for {t.name}\") }} }} }}")
     else:
@@ -125,7 +126,15 @@ def emit_item(t):
                 ctor = f"{init} {{ {', '.join(args)} }}" if k == "named" else f"{init}({', '.join(args)})"
                 arms.append(f"{i} => {ctor}.emplace_unchecked(bytes),")
             dflt = f"D::Def(_) => <Self as DynDefault>::dyn_default(bytes)," if t.has_default else ""
-            o.append(f"impl Editable for {t.name} {{}}")
+            marms = []
+            for i, (vn, k, fs) in enumerate(t.variants):
+                if k == "unit":
+                    marms.append(f"({i}, {t.name}Mut::{vn}) => panic!(\"harness: no field\"),"); continue
+                if k == "tuple": pat = f"{t.name}Mut::{vn}(" + ", ".join(bind(j, n) for j, (n, _) in enumerate(fs)) + ")"
+                else: pat = f"{t.name}Mut::{vn} {{ " + ", ".join(n for n, _ in fs) + " }"
+                sets = " ".join(f"{j} => {{ *{bind(j, n)} = from_raw::<{ft.rs()}>(img_); }}" for j, (n, ft) in enumerate(fs) if ft.sized)
+                marms.append(f"({i}, {pat}) => {{ match fi_ {{ {sets} _ => panic!(\"harness: no such sized field\") }} \"ok\".into() }}")
+            o.append(f"impl Editable for {t.name} {{ fn edit(&mut self, op: &Op) -> String {{ match op {{ Op::SetField(v_, fi_, img_) => {{ #[allow(unused_variables, unreachable_patterns)] match (*v_, self.as_mut()) {{ {' '.join(marms)} _ => \"novariant\".into() }} }} Op::Assign(d) => match self.assign_in_place(de::<Self>(d)) {{ Ok(_) => \"ok\".into(), Err(e) => format!(\"err:{{}}\", err_str(&e)) }}, _ => panic!(\"harness: operation not applicable to this type\") }} }} }}")
             hooks = "default_hooks!();" if t.has_default else ""
             o.append(f"impl DynTarget for {t.name} {{ {hooks} unsafe fn dyn_emplace<'a>(d: &D, bytes: &'a mut [u8]) -> Result<&'a mut Self, Error> {{ match d {{ D::Enum(i, f, l) => {{ let _ = (f, l); match i {{ {' '.join(arms)} _ => panic!(\"harness: bad variant\") }} }} {dflt} _ => panic!(\"harness: bad initialiser for {t.name}\") }} }} }}")
     return "\n".join(o)
